@@ -74,7 +74,8 @@ def payload_variants():
 def strategy(tier):
     gate = st.fixed_dictionaries({
         'part': st.just('gate'), 'aio': st.booleans(),
-        'auth': st.sampled_from(['dict', 'list', 'pred', 'apred', 'false']),
+        'auth': st.sampled_from(['dict', 'list', 'pred', 'apred', 'false',
+                                 'tpred', 'tapred']),
         'mode': st.sampled_from(['development', 'production']),
         'read_only': st.booleans(),
         'payloads': st.lists(payload_variants(), min_size=1, max_size=4)})
@@ -154,7 +155,21 @@ def _pred(p):
         isinstance(p.get('password'), str) and p['password'].startswith('s')
 
 
+def _tpred(p):
+    """A predicate in truthiness style: its verdict is a falsy or truthy
+    value, not necessarily a bool (None, '', 0, a token string...)."""
+    if not isinstance(p, dict):
+        return None
+    return p.get('username') == 'admin' and p.get('password')
+
+
 def _mk_auth(kind, aio):
+    if kind in ('tpred', 'tapred'):
+        if kind == 'tapred' and aio:
+            async def atp(p):
+                return _tpred(p)
+            return atp, lambda p: bool(_tpred(p))
+        return _tpred, lambda p: bool(_tpred(p))
     if kind == 'dict':
         return dict(CREDS), lambda p: strict_eq(p, CREDS)
     if kind == 'list':
